@@ -3,7 +3,15 @@
 use crate::gen::*;
 
 pub fn coeff_vec(r: &mut Rng, len: usize, x: f64) -> (Vec<f64>, &'static str) {
-    match r.below(13) {
+    match r.below(14) {
+        13 => {
+            // a few ulps (or a relative 1e-15..1e-12) beside simple fractions p/q: products with small integers land
+            // next to, not on, integers and other round values
+            ((0..len).map(|_| {
+                let f = r.int(-40, 40) as f64 / r.int(1, 8) as f64;
+                if f == 0.0 { 0.0 } else if r.chance(0.5) { ulps(f, r.int(-4, 4)) } else { f * (1.0 + r.sign() * 10f64.powf(r.uniform(-15.5, -12.0))) }
+            }).collect(), "beside_simple_fractions")
+        }
         10 => {
             // the whole vector at a very small or very large common scale
             let sc = 10f64.powf(r.uniform(-35.0, 35.0));
